@@ -340,7 +340,14 @@ def r13h(ctx):
     ctx.check(ok, "R13h", c, "a wall/cap point is the entry point when it lies behind the vertex along the direction (t < 0) and the exit point when ahead (t > 0)", "", key_detail="cylinder entry/exit")
 
 
+def r13i(ctx):
+    from ._fwd import forwarding
+    ctx.rule("R13i", "every generator hands energy, shadow, flavor ratio, source, interaction model and Earth model to the base generator", expected=10, kind="N")
+    forwarding(ctx, "R13i", {"pyrex.generation"}, "generators")
+
+
 def run(ctx):
+    ctx.guard(r13i)
     ctx.guard(r13h)
     ctx.guard(r13a)
     ctx.guard(r13b)
